@@ -172,7 +172,7 @@ func (e *Eng) heapRead(st *State, recv types.Type, field, ref string, ft types.T
 			cur := e.heapSym(st, sub, "(Array Int Int)")
 			v.Elems = append(v.Elems, scalar(fmt.Sprintf("(select %s %s)", cur, ref), "Int", nil))
 		}
-		e.assume(st, fmt.Sprintf("(and (>= %s 0) (>= %s 0))", v.Elems[1].T, v.Elems[2].T))
+		e.assume(st, fmt.Sprintf("(and (>= %s 0) (>= %s 0) (>= %s 0) (<= (+ %s %s) MAXI64) (=> (= %s 0) (= %s 0)))", v.Elems[0].T, v.Elems[1].T, v.Elems[2].T, v.Elems[1].T, v.Elems[2].T, v.Elems[0].T, v.Elems[2].T))
 		return v
 	case "Struct":
 		return e.heapReadComp(st, name, ref, ft)
@@ -211,7 +211,7 @@ func (e *Eng) heapReadComp(st *State, name, ref string, ft types.Type) *Val {
 			cur := e.heapSym(st, fmt.Sprintf("%s.%d", name, i), "(Array Int Int)")
 			v.Elems = append(v.Elems, scalar(fmt.Sprintf("(select %s %s)", cur, ref), "Int", nil))
 		}
-		e.assume(st, fmt.Sprintf("(and (>= %s 0) (>= %s 0) (>= %s 0) (=> (= %s 0) (= %s 0)))", v.Elems[0].T, v.Elems[1].T, v.Elems[2].T, v.Elems[0].T, v.Elems[2].T))
+		e.assume(st, fmt.Sprintf("(and (>= %s 0) (>= %s 0) (>= %s 0) (<= (+ %s %s) MAXI64) (=> (= %s 0) (= %s 0)))", v.Elems[0].T, v.Elems[1].T, v.Elems[2].T, v.Elems[1].T, v.Elems[2].T, v.Elems[0].T, v.Elems[2].T))
 		return v
 	}
 	es := sortOf(ft)
@@ -269,7 +269,7 @@ func (e *Eng) elemComp(st *State, name string, t types.Type, sl *Val, idx string
 			cur := e.heapSym(st, fmt.Sprintf("%s.%d", name, i), "(Array Int (Array Int Int))")
 			v.Elems = append(v.Elems, scalar(fmt.Sprintf("(select (select %s %s) (+ %s %s))", cur, sl.Elems[0].T, sl.Elems[1].T, idx), "Int", nil))
 		}
-		e.assume(st, fmt.Sprintf("(and (>= %s 0) (>= %s 0) (>= %s 0) (=> (= %s 0) (= %s 0)))", v.Elems[0].T, v.Elems[1].T, v.Elems[2].T, v.Elems[0].T, v.Elems[2].T))
+		e.assume(st, fmt.Sprintf("(and (>= %s 0) (>= %s 0) (>= %s 0) (<= (+ %s %s) MAXI64) (=> (= %s 0) (= %s 0)))", v.Elems[0].T, v.Elems[1].T, v.Elems[2].T, v.Elems[1].T, v.Elems[2].T, v.Elems[0].T, v.Elems[2].T))
 		return v
 	}
 	es := elemSort(t)
